@@ -12,6 +12,7 @@ import asyncio
 from harness import rt, pool
 
 _A = None
+_INTERESTING = {}
 FILES = None
 
 
@@ -22,6 +23,8 @@ def worker_init():
     rt.patch_asyncio_module(A)
     _A = A
     FILES = pool.aiuti_files()
+    global _INTERESTING
+    _INTERESTING = {FILES['asyncio']: rt.interesting_lines(FILES['asyncio'])}
 
 
 class AwError(Exception):
@@ -37,6 +40,7 @@ def execute(sc):
     ctl = rt.install(rt.Ctl(rt.make_strategy(sc.get('strategy', {'kind': 'replay', 'prefix': []})),
                             trace_files=[FILES['asyncio']] if sc.get('trace', True) else (),
                             max_steps=sc.get('max_steps', 40000)))
+    ctl.interesting = _INTERESTING
     asyncio.set_event_loop_policy(rt.VPolicy())
     keep = []
     runners = {}
